@@ -22,10 +22,10 @@ type idxInfo struct {
 }
 
 type oracleIndex struct {
-	pre          map[string]map[string]idxInfo // ns -> name -> info, before the step
-	preExists    map[string]bool
-	memberChange int
-	maxIndexes   int
+	pre                 map[string]map[string]idxInfo // ns -> name -> info, before the step
+	preExists           map[string]bool
+	memberChange        int
+	maxIndexes          int
 	checkedAfterFailure int
 }
 
@@ -275,10 +275,10 @@ func checkIndexCoherence(cat *lungo.Catalog, x *Ctx, partialMembers *int) error 
 // ---------------------------------------------------------------- C07: uniqueness
 
 type oracleUnique struct {
-	catB           *lungo.Catalog
-	rejections     int
-	multiAccepted  int
-	exactChecked   int
+	catB          *lungo.Catalog
+	rejections    int
+	multiAccepted int
+	exactChecked  int
 }
 
 func (o *oracleUnique) before(r *hRun, step bson.D) error {
